@@ -38,6 +38,8 @@ pub struct GenConfig {
     /// fields and pointers, exposed fields, `__refetch` — in every selection set; 0 in every
     /// preset (C25 raises it so that refetch references are reused at several depths)
     pub ref_weight: usize,
+    /// one declaration in `pointer_den` is a client pointer (6 in every preset; `dense_refs` lowers it)
+    pub pointer_den: usize,
 }
 
 impl GenConfig {
@@ -57,6 +59,7 @@ impl GenConfig {
             list_variables: true,
             refetch_fields: false,
             ref_weight: 0,
+            pointer_den: 6,
         }
     }
     pub fn client_graph() -> GenConfig {
@@ -81,7 +84,17 @@ impl GenConfig {
             list_variables: true,
             refetch_fields: false,
             ref_weight: 0,
+            pointer_den: 6,
         }
+    }
+    /// Many refetchable selections: client pointers are every second declaration, client
+    /// selections/`__refetch`/exposed fields dominate selection sets (readers that use several
+    /// refetch queries, the same pointer selected several times with different arguments).
+    pub fn dense_refs(mut self) -> GenConfig {
+        self.ref_weight = 3;
+        self.refetch_fields = true;
+        self.pointer_den = 2;
+        self
     }
     pub fn risky(mut self) -> GenConfig {
         self.risky = true;
@@ -118,7 +131,7 @@ const HOSTILE_DESCRIPTIONS: &[&str] = &[
     "é漢😀",
 ];
 const PLAIN_STRINGS: &[&str] = &["hello", "a b", "a_b", "x"];
-const ODD_STRINGS: &[&str] = &["it's", "é", "a\\\"b", "😀", "back\\\\slash", "a-b", "", "tab\\there", "${x}", "*/"];
+const ODD_STRINGS: &[&str] = &["it's", "é", "a\\\"b", "😀", "back\\\\slash", "a-b", "", "tab\\there", "${x}", "*/", "two  spaces", " pad  "];
 
 struct Ctx<'a> {
     t: &'a mut Tape,
@@ -630,6 +643,7 @@ fn gen_selset(c: &mut Ctx, p: &Project, ty: &str, depth: usize, dc: &mut DeclCtx
     let n = c.t.range(1, 4);
     let mut out: Vec<Sel> = vec![];
     let mut last_server: Option<FieldDef> = None;
+    let mut last_client: Option<usize> = None;
     for _ in 0..n {
         let mut cand = cands[c.t.choose(cands.len())].clone();
         // bias towards the same server field selected twice in one selection set (it gets an alias
@@ -641,6 +655,17 @@ fn gen_selset(c: &mut Ctx, p: &Project, ty: &str, depth: usize, dc: &mut DeclCtx
         }
         if let Cand::Server(f) = &cand {
             last_server = Some(f.clone());
+        }
+        // same bias for client fields and pointers: the same selectable twice (or more) in one
+        // selection set, aliased, usually with different arguments — ties for everything the
+        // compiler keys by selectable name only
+        if let Some(j) = last_client {
+            if c.t.chance(1, 5) {
+                cand = Cand::Client(j);
+            }
+        }
+        if let Cand::Client(j) = &cand {
+            last_client = Some(*j);
         }
         let mut sel = match cand {
             Cand::Server(f) => {
@@ -717,7 +742,7 @@ fn build_decls(c: &mut Ctx, p: &mut Project) {
         // bias: later declarations sit on Query so that they can reach earlier ones
         let parent = if i + 1 == n || c.t.chance(1, 3) { "Query".to_string() } else { c.t.pick(&objects).clone() };
         let parent_fetchable = parent == "Query" || p.schema.get(&parent).map(|t| t.has_id()).unwrap_or(false);
-        let pointer = c.cfg.client_graph && (parent_fetchable || c.cfg.risky) && c.t.chance(1, 6);
+        let pointer = c.cfg.client_graph && (parent_fetchable || c.cfg.risky) && c.t.chance(1, c.cfg.pointer_den.max(1));
         let (kind, name) = if pointer {
             let targets: Vec<String> = objects
                 .iter()
@@ -727,7 +752,13 @@ fn build_decls(c: &mut Ctx, p: &mut Project) {
             if targets.is_empty() {
                 continue;
             }
-            let target_name = c.t.pick(&targets).clone();
+            let mut target_name = c.t.pick(&targets).clone();
+            // dense preset: a pointer to another type, selected inside a nested client field, runs
+            // into the recorded crash `Expected refetch strategy` (C08), which hides everything
+            // behind it; pointers back to the parent type do not
+            if c.cfg.pointer_den < 6 && targets.contains(&parent) && c.t.chance(2, 3) {
+                target_name = parent.clone();
+            }
             let target = if c.t.chance(1, 3) { TypeRef::list(TypeRef::named(&target_name, true), true) } else { TypeRef::named(&target_name, false) };
             (DeclKind::Pointer { target }, c.t.pick(POINTER_NAMES).to_string())
         } else {
@@ -765,7 +796,9 @@ fn build_entrypoints(c: &mut Ctx, p: &mut Project) {
             continue;
         }
         let last_chance = !any && p.decls[i + 1..].iter().all(|d| d.parent != "Query" || d.is_pointer());
-        if last_chance || c.t.chance(2, 3) {
+        // dense preset: every Query field is an entrypoint, so that every reader that nests another
+        // client field is actually generated
+        if last_chance || c.cfg.pointer_den < 6 || c.t.chance(2, 3) {
             any = true;
             let lazy = c.cfg.advanced && c.t.chance(1, 5);
             let file = c.t.choose(p.file_names.len());
